@@ -1,7 +1,7 @@
 import DuneVerif.Common.Proto
 import DuneVerif.Model.C13
 /-! line-protocol driver for C13 (format: see harness/mpi_c13.cc)
-    `np=<P> num=<d|c> ord=<a|f> del=<m|r> : <g>=<rank><o|v|c><k|d|a|n>,...;...`  -/
+    `np=<P> num=<d|c|s> ord=<a|f> del=<m|r> [re=<0|s|d>] : <g>=<rank><o|v|c><k|d|a|n>,...;...`  -/
 open DV DV.C13
 
 structure Tok where
@@ -43,50 +43,83 @@ def insSorted (x : Int × Nat) : List (Int × Nat) → List (Int × Nat)
   | [] => [x]
   | y :: ys => if y.1 < x.1 then y :: insSorted x ys else x :: y :: ys
 
-def locStr (l : Nat) : String := if l = 2 ^ 64 - 1 then "M" else toString l
+def locStr (hide : Bool) (l : Nat) : String :=
+  if l = 2 ^ 64 - 1 then "M" else if hide ∧ l ≥ 2000 then "S" else toString l
 
-def showRank (st : RankState) : String :=
-  let idx := "I[" ++ ",".intercalate (st.idx.map fun e => toString e.g ++ attrStr e.attr ++ ":" ++ locStr e.loc) ++ "]"
+/-- `post`: after a sync (prints the in-sync flag); `calls`: the call counter of the numberer object (num=s only) -/
+def showRank (hide : Bool) (post : Bool) (calls : Option Nat) (st : RankState) : String :=
+  let idx := "I[" ++ ",".intercalate (st.idx.map fun e => toString e.g ++ attrStr e.attr ++ ":" ++ locStr hide e.loc) ++ "]"
   let nbs := st.remote.map fun x =>
     " N" ++ toString x.1 ++ "[" ++ ",".intercalate (x.2.map fun en =>
       match resolve st.idx en with
       | some k => toString en.g ++ attrStr en.own ++ attrStr en.rem ++ "@" ++ toString k
       | none => "?" ++ attrStr en.rem) ++ "]"
-  idx ++ String.join nbs ++ " S" ++ (if isSynced st then "1" else "0")
+  idx ++ String.join nbs ++ (if post then " S" ++ (if isSynced st then "1" else "0") else "") ++
+    (match calls with
+     | some k => if post then " K" ++ toString k else ""
+     | none => "")
 
-def run (np : Nat) (custom : Bool) (toks : List Tok) : String :=
+/-- one sync of all ranks: pure numbering, or the counting numberer object of every rank (state = calls so far) -/
+def syncStep (num : Option (Int → Nat)) (w : World) (cs : List Nat) : World × List Nat :=
+  match num with
+  | some f => (sync f w, cs)
+  | none =>
+    let r := syncS (countingNumberer 2000) w cs
+    (r.map (·.1), r.map (·.2))
+
+def run (np : Nat) (numKind : String) (fixed : Bool) (re : String) (toks : List Tok) : String :=
   let base : Decomp := (List.range np).map fun p =>
     (toks.filter fun t => t.rank = p ∧ (t.st = 'k' ∨ t.st = 'd')).foldl (fun acc t => insSorted (t.g, t.attr) acc) []
   let del : Nat → Int → Bool := fun p g => toks.any fun t => t.rank = p ∧ t.g = g ∧ t.st = 'd'
   let w1 := deleteCopies del (consistent base)
-  let w2 := w1.mapIdx fun p st =>
-    let adds := (toks.filter fun t => t.rank = p ∧ t.st = 'a').foldl (fun acc t => insSorted (t.g, t.attr) acc) []
-    adds.foldl (fun s ga =>
-      let known := (toks.filter fun t => t.g = ga.1 ∧ t.rank ≠ p).map fun t => (t.rank, t.attr)
-      addCopy s ga.1 ga.2 (500 + ga.1).toNat known) st
-  let num : Int → Nat := if custom then fun g => (1000 + g).toNat else fun _ => 2 ^ 64 - 1
-  let post := sync num w2
-  " ".intercalate (post.mapIdx fun p st => "r" ++ toString p ++ "{" ++ showRank st ++ "}")
+  let w2 := (toks.filter fun t => t.st = 'a').foldl (fun w t =>
+      let known := (toks.filter fun u => u.g = t.g ∧ u.rank ≠ t.rank).map fun u => (u.rank, u.attr)
+      addCopyAt w t.rank t.g t.attr (500 + t.g).toNat known) w1
+  let num : Option (Int → Nat) :=
+    if numKind = "c" then some (fun g => (1000 + g).toNat) else if numKind = "d" then some (fun _ => 2 ^ 64 - 1) else none
+  let hide := numKind = "s" ∧ !fixed
+  let cs0 := List.replicate np 0
+  let r1 := syncStep num w2 cs0
+  let callsOf (cs : List Nat) (p : Nat) : Option Nat := if numKind = "s" then some (cs.getD p 0) else none
+  let showW (tag : String) (post : Bool) (w : World) (cs : List Nat) : List String :=
+    w.mapIdx fun p st => tag ++ "(" ++ showRank hide post (callsOf cs p) st ++ ")"
+  let a := showW "A" false w2 cs0
+  let b := showW "B" true r1.1 r1.2
+  let c : List String :=
+    if re = "0" then List.replicate np ""
+    else
+      let w3 := if re = "d" then deleteCopies del r1.1 else r1.1
+      let r2 := syncStep num w3 r1.2
+      (showW "C" true r2.1 r2.2).map (" " ++ ·)
+  " ".intercalate ((List.range np).map fun p =>
+    "r" ++ toString p ++ "{" ++ a.getD p "" ++ " " ++ b.getD p "" ++ c.getD p "" ++ "}")
 
 def handle (line : String) : String :=
   match line.splitOn " : " with
   | [head, body] =>
-    match tokens head with
-    | [n, num, ord, del] =>
+    let hs := tokens head
+    let (hs4, re?) : List String × Option String :=
+      match hs with
+      | [n, num, ord, del] => ([n, num, ord, del], some "0")
+      | [n, num, ord, del, re] =>
+        ([n, num, ord, del], if re = "re=0" then some "0" else if re = "re=s" then some "s" else if re = "re=d" then some "d" else none)
+      | _ => ([], none)
+    match hs4, re? with
+    | [n, num, ord, del], some re =>
       if !(n.startsWith "np=") then "bad-op" else
       match (n.drop 3).toString.toNat? with
       | none => "bad-op"
       | some np =>
         if np < 1 ∨ np > 64 then "bad-op" else
-        if !(num = "num=d" ∨ num = "num=c") ∨ !(ord = "ord=a" ∨ ord = "ord=f") ∨ !(del = "del=m" ∨ del = "del=r") then "bad-op" else
+        if !(num = "num=d" ∨ num = "num=c" ∨ num = "num=s") ∨ !(ord = "ord=a" ∨ ord = "ord=f") ∨ !(del = "del=m" ∨ del = "del=r") then "bad-op" else
         if ord = "ord=f" ∧ num = "num=d" then "bad-op" else
         let segs := (body.splitOn ";").map (fun s => String.ofList (s.toList.filter (· ≠ ' '))) |>.filter (· ≠ "")
         match segs.mapM (parseSeg? np) with
         | none => "bad-op"
         | some tss =>
           if !((tss.filterMap fun ts => ts.head?.map (·.g)).Nodup) then "bad-op" else
-          run np (num = "num=c") tss.flatten
-    | _ => "bad-op"
+          run np (num.drop 4).toString (ord = "ord=f") re tss.flatten
+    | _, _ => "bad-op"
   | _ => "bad-op"
 
 def main : IO Unit := runDriver handle
